@@ -77,6 +77,10 @@ def main():
     # time-out clauses on general histories
     if not a.replay:
         hs = [histories.gen_history(rng, 7000 + i, thorough) for i in range(120 if thorough else 40)]
+        # several messages in back-off on one channel: the wake-up time must be the earliest due time (histories shared with C15)
+        sys.path.insert(0, os.path.dirname(os.path.abspath(__file__)))
+        import c15
+        hs += [h for h in c15.timing_histories(rng, thorough) if h["id"][1] in "MO"]
         runs += qsengine.run_histories(ck, tree, hs)
     bad, vres = qsengine.judge(ck, runs)
     ck.add_tlc("QSendTrace", vres)
